@@ -218,7 +218,7 @@ Proof.
                  (has_ext = false -> (if c_fmt c =? 3 then match prev with Some s0 => cs_field s0 | None => 0 end
                                       else of_be (fst (split_at 3 (fixed_bytes c)))) = c_field c)).
   { unfold has_ext. destruct (c_fmt c =? 3) eqn:E3.
-    - assert (c_fmt c = 3) by lia. destruct (header_after_fmt3 prev c s H5 Hh) as [s0 [Hp0 [He1 He2]]].
+    - assert (Hf3 : c_fmt c = 3) by lia. destruct (header_after_fmt3 prev c s Hf3 Hh) as [s0 [Hp0 [He1 He2]]].
       rewrite Hp0. split; [symmetry; exact He1|]. intros Hf. symmetry. apply He2. exact Hf.
     - rewrite Hts by lia. split; [lia|]. intros Hf. lia. }
   destruct Hext as [He1 He2].
